@@ -710,6 +710,20 @@ class Interp:
             for st2, idx in self.ev(node.slice, st1):
                 if idx is RAISE:
                     yield st2, RAISE
+                elif self.handles("IndexError") and isinstance(obj, (SymSeq, LstObj, FieldList)) and not isinstance(idx, str):
+                    # inside `try: ... except IndexError`: the access forks instead of generating an obligation
+                    seq = self.as_seq(obj, st2)
+                    n = seq.length
+                    i = to_int(idx) if not isinstance(idx, int) else z3.IntVal(idx)
+                    inb = z3.And(-n <= i, i < n)
+                    out = st2.fork()
+                    out.assume(z3.Not(inb))
+                    if feasible(out.pc):
+                        out.exc = "IndexError"
+                        yield out, RAISE
+                    st2.assume(inb)
+                    if feasible(st2.pc):
+                        yield st2, self.seq_index(seq, idx, st2, node, checked=False)
                 else:
                     yield st2, self.subscript(obj, idx, st2, node)
 
@@ -1259,6 +1273,50 @@ class Interp:
     def st_Pass(self, node, st):
         yield st, NEXT
 
+    def st_Try(self, node, st):
+        """try / except with named handlers (no else / finally / `as`-binding use).  While the body runs the handled exception
+        names are active: an index that may be out of bounds then FORKS (in bounds / IndexError) instead of being an obligation.
+        The names are active only while the body's generator is advanced, never while the consumer runs later statements."""
+        if node.orelse or node.finalbody:
+            raise Unsupported("try with else / finally")
+        names = []
+        for h in node.handlers:
+            if h.type is None:
+                names.append("Exception")
+            elif isinstance(h.type, ast.Tuple):
+                names += [ast.unparse(e) for e in h.type.elts]
+            else:
+                names.append(ast.unparse(h.type))
+        stack = self.__dict__.setdefault("try_stack", [])
+        gen = self.exec_block(node.body, st)
+        while True:
+            stack.append(names)
+            try:
+                item = next(gen)
+            except StopIteration:
+                stack.pop()
+                break
+            stack.pop()
+            st1, flow = item
+            if flow.kind != "raise":
+                yield st1, flow
+                continue
+            exc = st1.exc or "Exception"
+            handler = None
+            for h in node.handlers:
+                hn = ["Exception"] if h.type is None else ([ast.unparse(e) for e in h.type.elts] if isinstance(h.type, ast.Tuple) else [ast.unparse(h.type)])
+                if exc in hn or "Exception" in hn or "BaseException" in hn:
+                    handler = h
+                    break
+            if handler is None:
+                yield st1, flow
+                continue
+            st1.exc = None
+            yield from self.exec_block(handler.body, st1)
+
+    def handles(self, exc):
+        return any(exc in names or "Exception" in names or "BaseException" in names for names in self.__dict__.get("try_stack", []))
+
     def st_Break(self, node, st):
         yield st, Flow("break")
 
@@ -1495,9 +1553,6 @@ class Interp:
 
     def st_With(self, node, st):
         raise Unsupported(f"with statement at line {node.lineno}")
-
-    def st_Try(self, node, st):
-        raise Unsupported(f"try statement at line {node.lineno}")
 
     # -------------------------------------------------------------- loops
     def st_For(self, node, st):
